@@ -74,7 +74,7 @@ def _beh_job(args):
     scripts = None
     if env == 'script':
         rec, _ = pgen_export.grammar_record(pgen_export.grammar_text(version))
-        scripts, _ = parserb.arc_cover(rec, start)
+        scripts, _ = parserb.arc_cover(rec, start, two_level=True)
     info, behs, res = parserb.behaviours(run_dir, version, env, num=num, seed=sd, errlevels=errlevels,
                                          errbudget=len(errlevels), closeat=14 if not (exhaustive or scripts) else 0,
                                          depth=26, workers=2, exhaustive_tokens=exhaustive, start=start, scripts=scripts)
